@@ -51,22 +51,29 @@ def loop_terms(prog: Program, fr):
     return out
 
 
-def all_frames(prog: Program):
-    """Frames of every function, closure bodies included (closures get created while
-    executing their enclosing function)."""
+def all_frames(prog: Program, *, include_extra: bool = False):
+    """Frames of every lcm function, closure bodies included (closures get created while
+    executing their enclosing function).  Reference / fixture modules only on request."""
     frames = {}
+    extra = getattr(prog, "extra", set())
+
+    def wanted(module):
+        return include_extra or module not in extra
+
     for q, info in list(prog.funcs.items()):
-        if info.parent is None:
+        if info.parent is None and wanted(info.module):
             frames[q] = prog.frame(q)
     # closures
     done = set()
     while True:
-        todo = [cid for cid in list(prog.closures) if cid not in done]
+        todo = [cid for cid in list(prog.closures) if cid not in done and cid not in prog.variant_closures]
         if not todo:
             break
         for cid in todo:
             done.add(cid)
             info = prog.closures[cid][0]
+            if not wanted(info.module):
+                continue
             fr = prog.closure_frame(cid)
             frames[f"{info.qualname}@{cid}"] = fr
     return frames
